@@ -47,6 +47,15 @@ def _extremes(rng, k):
     """inputs a small random sample never reaches: common grids of > 2^16 samples, analytic (Blackbody) operands in another unit,
     metre-valued operands with nanometre spacing"""
     out = []
+    # metre-valued operands (numbers ~5e-7) with the same number of samples on grids offset by a few nanometres: an absolute
+    # tolerance of 1e-8 in the operands' unit (np.allclose/np.isclose defaults) is 10 nm here
+    for i in range(max(2, k // 6)):
+        n1 = int(rng.integers(3, 8))
+        w1 = inc_grid(rng, n1, start=dyadic(rng, 400, 600, 2), bits=2, maxstep=12.0, uniform=bool(i % 2))
+        off = [0.25, 1.0, 3.5, 7.75][int(rng.integers(0, 4))]
+        out.append({'kind': 'pair', 'form': 'method', 'fn': OPSN[int(rng.integers(0, 3))], 'w1': w1, 'v1': [dyadic(rng, 1, 16, 3) for _ in w1], 'w2': [x + off for x in w1],
+                    'v2': [dyadic(rng, 1, 16, 3) for _ in w1], 'u1': 'm', 'u2': ['m', 'm', 'nm', 'um'][int(rng.integers(0, 4))], 'vu': None, 'vu2': None, 'method': 'linear',
+                    'sampling': 'min', 'fill': 0.0, 'fk': 'float', 'rel': 'offset-metres', 'dt1': 'float', 'dt2': 'float'})
     for i in range(k):
         t = i % 3
         if t == 0:
